@@ -6,9 +6,30 @@ Escape analysis, sync.Pool retention across GC cycles and the allocator are Go-r
 that no Gallina model exhibits.
 """
 import os
+import re
 
 import lib
-from lib import TieCheck
+from lib import TieCheck, COQ, Lock, go_env, sh
+
+
+def broken_lemmas(log, area="Route"):
+    """'File "./BridgeAlloc.v", line 57' -> 'BridgeAlloc.v: updateMaxParams_eq (line 57)'."""
+    out = []
+    for m in re.finditer(r'File "\./([A-Za-z0-9_]+\.v)", line (\d+)', log):
+        f, ln = m.group(1), int(m.group(2))
+        try:
+            src = open(os.path.join(COQ, area, f)).read().splitlines()[:ln]
+        except OSError:
+            continue
+        name = None
+        for line in src:
+            mm = re.match(r"\s*(?:Lemma|Theorem|Corollary|Example|Fact|Definition|Fixpoint)\s+([A-Za-z0-9_']+)", line)
+            if mm:
+                name = mm.group(1)
+        item = "%s: %s (line %d)" % (f, name, ln)
+        if item not in out:
+            out.append(item)
+    return out
 
 # add-only hook (build tag verif) the harness needs since round 7: which tree owns a context. /repo holds a copy
 # (/repo/verif_c16_owner.go); a scratch tree under test created from the last commit of /repo may not have it yet,
@@ -44,9 +65,13 @@ class C16(TieCheck):
     area = "Route"
     props = ["Props_C16.v"]
     gentie = "C16"
-    extra_props = [("Compose", "Props_Compose2.v")]
+    # tie A for the context sizing code (docs/GenC16.md): Props_GenAlloc.v is re-checked with the property files
+    extra_props = [("Compose", "Props_Compose2.v"), ("Route", "Props_GenAlloc.v")]
     harness = "c16"
-    # shared area: build only this property's closure (Node Lookup Tree Alloc Alloc2 Props_C16)
+    # shared area: build only this property's closure (Node Lookup Tree Alloc Alloc2 Props_C16).  The tie-A files
+    # (AllocSem / GenAlloc / BridgeAlloc / Props_GenAlloc) are deliberately NOT among these targets: gen_alloc() builds
+    # them, a broken tie is reported as a "generated-model" problem, and the cases are still evaluated against the
+    # hand-written model, which is what yields a concrete failing input
     coq_targets = ["Alloc.vo", "Alloc2.vo", "AllocHist.vo", "AllocHist2.vo"]
     extra_trust = [
         "model: coq/Route/Alloc.v = M1 (coq/Route/Lookup.v, transliteration of lookupByPath / lookupByDomain / roots.lookup, node.go:85-600) "
@@ -55,6 +80,10 @@ class C16(TieCheck):
         "growth-event semantics of append / slices.Grow / copyWithResize (context.go:384-393): the runtime allocates iff the length to reach exceeds the capacity, "
         "and the capacity afterwards is at least that length and persists in the pooled context (trusted reading of the Go spec/runtime; "
         "tested two-sidedly per buffer on every cold run through fox.VerifCtxCaps)",
+        "coq/Route/GenAlloc.v is regenerated from tree.go / context.go on every run by harness/cmd/allocgen (iTree.allocateContext, iTree.txn, tXn.clone / commit / "
+        "updateMaxParams / updateMaxDepth, the counter statements of tXn.insert / update / remove / truncate, copyWithResize); coq/Route/BridgeAlloc.v proves "
+        "Alloc.txn_caps, the counter updates of Tree.insert / update / remove / truncate and the growth predicate equal to it for all inputs; trusted: allocgen itself, "
+        "the primitives of coq/Route/AllocSem.v, and BridgeAlloc.ins_site (which result type / result.depth / result.charsMatched an insertion meets: tie B) (docs/GenC16.md)",
         "add-only hook /repo/verif_c16.go (build tag verif): reads cap(params), cap(tsrParams), cap(skipNds) of the pooled contexts of the published tree",
         "add-only hook /repo/verif_c16_owner.go (build tag verif): for a context handed to a handler, whether its tree (c.tree) is the published tree, and its three capacities; "
         "asked on every handler call of every case (AllocHist.x_handed_ok: owned, and at least as large as allocateContext of the routed tree makes it)",
@@ -85,7 +114,29 @@ class C16(TieCheck):
                     fh.write(OWNER_HOOK_SRC)
             except OSError as ex:
                 return False, "cannot install %s: %s" % (dst, ex)
-        return True, ""
+        return self.gen_alloc()
+
+    def gen_alloc(self):
+        """tie A for the context sizing code: allocgen rewrites coq/Route/GenAlloc.v from the tree under test, then
+        BridgeAlloc.v / Props_GenAlloc.v are rebuilt.  A refusal or a bridge lemma that no longer compiles is a broken
+        tie; the lemma is named."""
+        exe, o = lib.build_harness("allocgen")
+        if exe is None:
+            return False, "allocgen build failed:\n" + o[-2000:]
+        with Lock("coq.Route"):
+            rc, og = sh([exe, "repo=" + lib.REPO, "out=" + os.path.join(COQ, "Route", "GenAlloc.v")], env=go_env(), timeout=300)
+        refused = "\n".join(l for l in og.splitlines() if "REFUSED" in l)
+        okb, lb = lib.coq_build("Route", targets=["Props_GenAlloc.vo"])
+        if rc == 0 and okb:
+            return True, og
+        bl = broken_lemmas(lb) if not okb else []
+        named = ("broken bridge lemma: " + ", ".join(bl)) if bl else ""
+        k = lb.find('File "./')
+        err = "" if okb else (lb[k:k + 1200] if k >= 0 else lb[-1200:])
+        head = ("tie A (allocgen, docs/GenC16.md): the context sizing code of %s (allocateContext, the counters size / maxParams / depth, "
+                "copyWithResize) is no longer proved equal to coq/Route/Alloc.v / Tree.v" % lib.REPO)
+        msg = "\n".join(x for x in [head, refused[:900], named, err, ("==> " + named) if named else "", ("==> " + refused[:600]) if refused else ""] if x)
+        return False, msg
 
 
 CHECK = C16()
